@@ -300,8 +300,10 @@ class Model:
 
     # -- alphabet
     def a_tokens(self, full):
-        if full:
-            return ("d", "f", "1", "T", "2") if self.n <= 2 else ("d", "f", "1", "T")
+        if full:                                                             # thorough tier
+            if self.n <= 2:
+                return ("d", "f", "1", "T", "2")
+            return ("d", "f", "T") if (self.n >= 4 and len(self.owners) >= 3) else ("d", "f", "1", "T")
         return ("d", "f", "T") if self.n >= 4 else ("d", "f", "1", "T")      # quick tier
 
     def field_sets(self, c, full):
